@@ -216,7 +216,13 @@ func Fuzz(args []string) {
 	fs.Parse(args)
 	rng := rand.New(rand.NewSource(*seed))
 	w := tr.Create(*outp)
-	for hid, in := range fuzzInputs(rng, *per, *deep) {
+	inputs := fuzzInputs(rng, *per, *deep)
+	perExpr := 2
+	if *deep {
+		perExpr = 0
+	}
+	inputs = append(inputs, grammarTexts(perExpr, 1)...)
+	for hid, in := range inputs {
 		for ci, mk := range []func() *frontend.Context{func() *frontend.Context { return frontend.NewContext() }, frontend.DefaultCypherContext} {
 			var out parseOut
 			var ms int64
